@@ -50,7 +50,7 @@ theorem ntNames_nodup (B : List RuleN) (st : Name) : (ntNames B st).Nodup :=
 theorem indexIn_lt {tbl : List Name} {x : Name} (h : x ∈ tbl) : indexIn tbl x < tbl.length :=
   List.findIdx_lt_length_of_exists ⟨x, h, by simp⟩
 
-theorem getElem?_indexIn {tbl : List Name} {x : Name} (h : x ∈ tbl) :
+theorem indexIn_lookup {tbl : List Name} {x : Name} (h : x ∈ tbl) :
     tbl[indexIn tbl x]? = some x := by
   have hl := indexIn_lt h
   rw [List.getElem?_eq_getElem hl]
@@ -60,8 +60,8 @@ theorem getElem?_indexIn {tbl : List Name} {x : Name} (h : x ∈ tbl) :
 
 theorem indexIn_injOn (tbl : List Name) : InjOn (indexIn tbl) tbl := by
   intro a ha b hb e
-  have h1 := getElem?_indexIn ha
-  have h2 := getElem?_indexIn hb
+  have h1 := indexIn_lookup ha
+  have h2 := indexIn_lookup hb
   rw [e, h2] at h1
   injection h1 with h1
   exact h1.symm
